@@ -379,6 +379,35 @@ def run(ctx):
         if prob:
             seq_fail = (trace, prob, t)
             break
+    # directed: positional slicing with every kind of step, followed by filter / clip
+    if seq_fail is None:
+        for i in range(60 if ctx.quick else 600):
+            t, info = g.triangle(n_periods=g.r.randint(2, 4), n_lags=g.r.randint(2, 4), values="int")
+            if len(t) < 3:
+                continue
+            n = len(t)
+            for sl in (slice(None, None, -1), slice(None, None, -2), slice(n - 1, 0, -1), slice(1, None, 2),
+                       slice(n // 2, None, -1), slice(None, n // 2, 3)):
+                try:
+                    t2 = t[sl]
+                    chain = [f"t[{sl.start}:{sl.stop}:{sl.step}]"]
+                    probs = canonical_violations(t2)
+                    if not probs:
+                        t3 = t2.filter(lambda c: True).clip(min_eval=min(t.evaluation_dates))
+                        chain.append("filter(all).clip(min_eval=first)")
+                        probs = canonical_violations(t3)
+                        if not probs and strict_seq(t3) != strict_seq(Triangle(list(t2.cells))):
+                            probs = ["slice/filter/clip result differs from Triangle(list(cells))"]
+                        t2 = t3
+                except Exception as ex:  # noqa: BLE001
+                    continue
+                ctx.count(evaluations=1, traces=1)
+                ctx.hist("op:directed-slice")
+                if probs:
+                    seq_fail = (chain, ("index_slice", probs, t2), t)
+                    break
+            if seq_fail:
+                break
     # model vs implementation inside Coq
     mism = []
     if (ctx.build / "GenOrder.vo").exists() or True:
